@@ -168,3 +168,48 @@ def same_value(a, b):
         return None not in la and la == lb
     except Exception:
         return False
+
+
+def rsp_offset(t):
+    """constant k such that t == rsp0 + k (None otherwise)"""
+    base = ("v", "x86_rsp", 64)
+    if t == base:
+        return 0
+    if isinstance(t, tuple) and t[0] == "op" and t[1] == "add" and t[3][0] == "k" and t[4] == base:
+        return T.sval(t[3])
+    return None
+
+
+def frame_templates(jm, use_mbuff, update_data_ptr):
+    """(prologue items, epilogue items, problems): byte templates emitted before / after the
+    per-instruction loop of the code generator, for the given wrapper flags"""
+    ev = jm.lm.ev
+    F = jm.cx.F
+    fn = F.fns[jm.fn]
+    params = fn["thir"]["params"]
+    key = ("self", "jit")
+    selfv = ev.sym_for("self", "jit::JitCompiler")
+    st = symex.St().set(key, selfv)
+    args = [("ref", ("pv", key)), ("obj", "JITMEM", "&mut jit::JitMemory"), ("obj", "PROG", "&[u8]"),
+            T.K(1, int(use_mbuff)), T.K(1, int(update_data_ptr)), ("obj", "HELPERS", "&HashMap")]
+    outs = ev.run_fn(jm.fn, args, st) or []
+    res = []
+    for v, s in outs:
+        pro, epi, seen_loop, pending = [], [], False, None
+        for e in s.effects:
+            if e[0] == "loop":
+                seen_loop = True
+            elif e[0] == "emit":
+                t = jm.canon(e[2])
+                tag = None
+                if pending is not None and e[1] == 32 and t == T.K(32, 0):
+                    tag, pending = ("reloc", pending), None
+                (epi if seen_loop else pro).append((e[1], t, tag))
+            elif e[0] == "call" and isinstance(e[1], str) and e[1].endswith("Vec<T, A>::push"):
+                val = e[2][1]
+                if isinstance(val, tuple) and val and val[0] == "struct" and val[1].endswith("Jump"):
+                    pending = jm.canon(symex.sfield(val, "target_pc"))
+        ok = isinstance(v, tuple) and v and v[0] == "struct" and v[2] == "Ok"
+        res.append({"conds": [jm.canon(c) for c in s.conds], "prologue": pro, "epilogue": epi, "ok": ok,
+                    "unrec": [u for u in s.unrec if "field write" not in u]})
+    return res
